@@ -490,7 +490,7 @@ inner_gf65376_sbb(unsigned char cc, uint64_t a, uint64_t b, uint64_t *d)
         inner_gf65376_umul(lo, hi, h, 0xFC0FC0FC0FC0FC1);
         quo = hi >> 2;
         rem = h - (65 * quo);
-        cc = inner_gf65376_adc(cc, d0, quo, &d0);
+        cc = inner_gf65376_adc(0, d0, quo, &d0);
         cc = inner_gf65376_adc(cc, d1, 0, &d1);
         cc = inner_gf65376_adc(cc, d2, 0, &d2);
         cc = inner_gf65376_adc(cc, d3, 0, &d3);
